@@ -666,7 +666,49 @@ def r7_8(F, R):
     R.floor("R7.8", "evaluate methods of conditional primitives", n, 3)
 
 
+def r7_9(F, R):
+    from .common import producers
+    R.rule("R7.9", "expanding once consumes the expanded token: in stream::expand_once the token that was read (next_unexpanded) is put back on the "
+                   "input only on a path that answers Ok(false) — nothing was expanded; on a path that answers Ok(true) (an expansion primitive ran, "
+                   "a macro was called, or the \\noexpand override was applied) the token itself never returns to the input, otherwise "
+                   "`\\expandafter\\a\\noexpand\\b` leaves `\\noexpand\\b` instead of the non-expandable `\\b` and the token is expanded twice")
+    fn = _one(F, "texlang::vm::streams::stream::expand_once")
+    D = Defs(fn)
+    true_ret = set()
+    false_ret = set()
+    for bi, b in enumerate(fn.blocks):
+        for st in b["s"]:
+            if st["k"] == "=" and not st["lhs"]["p"] and st["lhs"]["l"] == 0 and st["rv"]["k"] == "agg" and str(st["rv"].get("variant")) == "Ok":
+                from ..pps import const_operand
+                o = st["rv"]["ops"][0] if st["rv"]["ops"] else None
+                v = const_operand(o) if o is not None else None
+                # an answer that is not the literal `false` counts as "expanded"
+                (false_ret if v == 0 else true_ret).add(bi)
+    if not true_ret or not false_ret:
+        raise AnchorError("R7.9: expand_once: Ok(true)/Ok(false) returns not found (%s/%s)" % (sorted(true_ret), sorted(false_ret)))
+    n = 0
+    for bi, t in fn.calls():
+        cn = strip_generics(callee_name(t) or "")
+        if cn.split("::")[-1] not in ("push", "back", "extend", "push_back", "insert") or len(t.get("args") or []) < 2:
+            continue
+        pr = producers(fn, D, t["args"][-1])
+        if not any(tag == "call" and name.endswith("next_unexpanded") for tag, name, ty in pr):
+            continue
+        n += 1
+        inst = "expand_once/put-back#%d" % n
+        start = t.get("t")
+        r = reachable(fn, start) if start is not None else set()
+        hit = sorted(r & true_ret)
+        if hit:
+            R.violation("R7.9", inst, "stream::expand_once puts the token it read back on the input and then answers Ok(true) (%s): the token was reported as "
+                        "expanded but is still in the input, so it is expanded again (or `\\noexpand` is applied to a different token)" % fn.loc(fn.blocks[hit[0]]["t"]), fn.loc(t))
+        else:
+            R.ok("R7.9", inst, "only Ok(false) answers are reachable after the put-back", fn.loc(t), how="path")
+    R.floor("R7.9", "put-backs of the read token in expand_once", n, 2)
+
+
 def run(F, R, tier):
+    r7_9(F, R)
     r7_1(F, R)
     r7_7(F, R)
     r7_8(F, R)
